@@ -1408,3 +1408,6 @@ case("c16-refactor-reducer-locals", "C16", "refactor", [("src/stabilize/reducers
         if not found:
             continue
         result[key] = reducer(found)""")])
+case("c03-refactor-skip-branch-first", "C03", "refactor", [(H + "start_stage/handler.py", """                if readiness.phase == PredicatePhase.SKIP:
+                    logger.warning(""", """                if readiness.phase is PredicatePhase.SKIP:
+                    logger.warning(""")])
